@@ -111,9 +111,15 @@ type Res = Result<http::Response<Body>, String>;
 
 /// Run one case under the deterministic executor; returns (outcome class, panics).
 fn run_case(c: &Case, entry: Entry, tp: Tp, fx: &Fx) -> (String, Vec<String>) {
+    let (o, p, _) = run_case_sched(c, entry, tp, fx, &[]);
+    (o, p)
+}
+
+/// Same, under a given schedule prefix; also returns the scheduling points met (for the explorer).
+fn run_case_sched(c: &Case, entry: Entry, tp: Tp, fx: &Fx, schedule: &[usize]) -> (String, Vec<String>, Vec<crate::det::Point>) {
     PANICS.with(|p| p.borrow_mut().clear());
-    let Some(req) = build_request(c) else { return ("unbuildable".into(), vec![]) };
-    let mut s = Sched::new(vec![]);
+    let Some(req) = build_request(c) else { return ("unbuildable".into(), vec![], vec![]) };
+    let mut s = Sched::new(schedule.to_vec());
     let obs = new_obs();
     // two servers: plain and TLS, each reachable through its own duplex listener
     let (cp, ip) = duplex::pair();
@@ -189,6 +195,8 @@ fn run_case(c: &Case, entry: Entry, tp: Tp, fx: &Fx) -> (String, Vec<String>) {
     }
     let task_panics: Vec<String> = s.panics().into_iter().map(|(t, p)| format!("task {t}: {p}")).collect();
     let livelock = s.livelock;
+    let points = s.points.clone();
+    let replay_error = s.replay_error.clone();
     s.teardown();
     drop((cp, ct));
     let mut panics = PANICS.with(|p| p.borrow().clone());
@@ -196,12 +204,13 @@ fn run_case(c: &Case, entry: Entry, tp: Tp, fx: &Fx) -> (String, Vec<String>) {
         panics = task_panics;
     }
     let outcome = match result.lock().unwrap().clone() {
+        _ if replay_error.is_some() => format!("machinery: {}", replay_error.unwrap()),
         Some(Ok(st)) => format!("ok-{st}"),
         Some(Err(e)) => format!("err:{}", e.split(':').next().unwrap_or("").trim()),
         None if livelock => "livelock".into(),
         None => "no-result".into(),
     };
-    (outcome, panics)
+    (outcome, panics, points)
 }
 
 pub struct Fx {
@@ -295,6 +304,51 @@ pub fn run(args: &Args) -> i32 {
                     json!({"engine":"schedmc-c17","case_index":i,"case":{"version":format!("{:?}", c.version),"method":c.method,"uri":c.uri,"headers":c.headers,"body":c.body},"entry":format!("{e:?}"),"transport":format!("{t:?}")}));
             }
         }
+    }
+    // thorough tier: every schedule with one deviation from FIFO order, for every case
+    if args.tier.is_thorough() {
+        let results = crate::evidence::par_map(chunks.len(), threads, |ci| {
+            let mut found: Vec<(usize, Entry, Tp, Vec<usize>, String, Vec<String>)> = vec![];
+            let mut execs = 0u64;
+            for (i, e, t) in chunks[ci].iter() {
+                let c = &cases[*i];
+                let stats = crate::det::explore(
+                    1,
+                    400,
+                    |prefix| {
+                        let (o, p, points) = run_case_sched(c, *e, *t, &fx, prefix);
+                        crate::det::Execution { points, outcome: (o, p) }
+                    },
+                    |prefix, _d, ex| {
+                        let (o, p) = &ex.outcome;
+                        if (!p.is_empty() || o == "no-result" || o == "livelock" || o.starts_with("machinery")) && found.len() < 20 {
+                            found.push((*i, *e, *t, prefix.to_vec(), o.clone(), p.clone()));
+                            return false;
+                        }
+                        true
+                    },
+                );
+                execs += stats.executions;
+            }
+            (execs, found)
+        });
+        let mut execs = 0u64;
+        for (x, found) in results {
+            execs += x;
+            for (i, e, t, prefix, outcome, panics) in found {
+                let c = &cases[i];
+                if outcome.starts_with("machinery") {
+                    println!("MACHINERY-ERROR {outcome}");
+                    let _ = run.finish();
+                    return 2;
+                }
+                run.violation(format!("schedule-dependent {} entry={e:?} uri={}", if panics.is_empty() { "no-result" } else { "panic" }, c.uri_class),
+                    format!("under schedule {prefix:?}: outcome {outcome}, panics {panics:?} sending {} {} {:?} through {e:?} over {t:?}", c.method, c.uri, c.version),
+                    json!({"engine":"schedmc-c17","case_index":i,"entry":format!("{e:?}"),"transport":format!("{t:?}"),"schedule":prefix}));
+            }
+        }
+        run.cov("schedules_with_one_deviation", execs);
+        n += execs;
     }
     // TCP transport (get_host_and_port path) in a real runtime against a closed loopback port
     let tcp = tcp_cases(&cases);
